@@ -12,6 +12,8 @@ pub uninterp spec fn sqrt_r(x: real) -> real;
 pub uninterp spec fn acos_r(x: real) -> real;
 pub uninterp spec fn pi_r() -> real;
 pub uninterp spec fn floor_r(x: real) -> int;
+/// std::f64::MIN as a real (a large negative number)
+pub uninterp spec fn f64_min_r() -> real;
 pub uninterp spec fn ceil_r(x: real) -> int;
 /// x % y with the sign of x (Rust's f64 `%`), as a real function
 pub uninterp spec fn fmod_r(x: real, y: real) -> real;
@@ -49,7 +51,7 @@ impl F {
     #[verifier::external_body]
     pub fn epsilon() -> (r: F) ensures 0real < r@ < 0.000000000000001real { unimplemented!() }
     #[verifier::external_body]
-    pub fn min_value() -> (r: F) ensures r@ < -1000000000000real { unimplemented!() }
+    pub fn min_value() -> (r: F) ensures r@ == f64_min_r(), r@ < -1000000000000real { unimplemented!() }
     #[verifier::external_body]
     pub fn from_u64(x: u64) -> (r: F) ensures r@ == x as real { unimplemented!() }
     #[verifier::external_body]
